@@ -33,7 +33,7 @@ CHECKS = {
              "2/3-value streams with keep-alive newlines through five bufferings, every single-byte substitution and "
              "truncation of each encoding; (c) command helpers; (d) itos over the whole pre-rendered table",
         parts=[dict(pkg="./pkg/redis", harness=["redis"], test="^TestVerif_C10$", shards=16,
-                    budget=dict(quick=60, thorough=900))],
+                    budget=dict(quick=60, thorough=900), race=True, race_test="^TestVerif_C10Race$", race_shards=1)],
     ),
     "C15": dict(
         level="exploration",
@@ -74,7 +74,8 @@ CHECKS = {
              "Hashes beyond 16 MiB are checked for the chunk records' concatenation.",
         note="trusts rdbgen/rdbcat (written from rdb.h/rdb.c, self-checking LZF) and crcref; header versions 1-4 are driven without a checksum trailer; bounds on word length and on the alphabet are stated in the evidence",
         rule="case = (word of alphabet items, header version, reader mode); states = distinct word prefixes (trie nodes) plus distinct dumped loader states (db, remainMember, lastReadCount, totMemberCount); transitions = parser runs; non-trivial = word contains at least one key or Lua record",
-        parts=[dict(pkg="./pkg/rdb", harness=["rdb"], test="^TestVerif_C01$", shards=16, budget=dict(quick=90, thorough=1500), mem_kb=8*1024*1024)],
+        parts=[dict(pkg="./pkg/rdb", harness=["rdb"], test="^TestVerif_C01$", shards=16, budget=dict(quick=90, thorough=1500), mem_kb=8*1024*1024,
+                    race=True, race_test="^TestVerif_C01Race$", race_shards=1)],
     ),
     "C11": dict(
         level="fault_enumeration",
@@ -106,7 +107,8 @@ CHECKS = {
              "length 2 (3 over a reduced alphabet) are written with the file encoder and loaded back, footer verified; BinEntry<->ObjEntry.",
         note="trusts rdbgen's notion of the logical value of each compact encoding (written from ziplist.c/intset.c/zipmap.c); sets are compared as multisets, everything else in order",
         rule="case = one value / payload / record sequence, distinct by construction; non-trivial = every case (each compares a decoded value with the expected one)",
-        parts=[dict(pkg="./pkg/rdb", harness=["rdb"], test="^TestVerif_C12$", shards=16, budget=dict(quick=60, thorough=900))],
+        parts=[dict(pkg="./pkg/rdb", harness=["rdb"], test="^TestVerif_C12$", shards=16, budget=dict(quick=60, thorough=900),
+                    race=True, race_test="^TestVerif_C12Race$", race_shards=1)],
     ),
     "C02": dict(
         level="model_checking",
@@ -293,7 +295,8 @@ CHECKS = {
              "the workers run to quiescence in between. One RDB holds a set whose decoded text exceeds the 8 MB writer buffer next to small keys: 2 and 3 workers, feed/drain orders within 1 (thorough 2) deviations.",
         note="the internal channel hand-offs of decode() itself are not interceptable without rewriting the function: they are covered by the owned-channel exploration of the worker function and by running the whole pipeline at several parallel degrees (stated limitation); streams and NaN scores are not decodable by design",
         rule="case = (file, parallel) or (entries, workers, feed/drain order); non-trivial = all (each compares the parsed output with the expected multiset)",
-        parts=[dict(pkg="./redis-shake", harness=["run"], test="^TestVerif_C17$", shards=16, gomaxprocs=4, budget=dict(quick=75, thorough=600))],
+        parts=[dict(pkg="./redis-shake", harness=["run"], test="^TestVerif_C17$", shards=16, gomaxprocs=4, budget=dict(quick=75, thorough=600),
+                    race=True, race_test="^TestVerif_C17Race$", race_shards=1)],
     ),
     "C06": dict(
         level="exploration",
@@ -325,6 +328,7 @@ CHECKS = {
         parts=[dict(pkg="./redis-shake/dbSync", harness=["dbsync"], test="^TestVerif_C19$", shards=16, gomaxprocs=2, budget=dict(quick=75, thorough=300)),
                dict(pkg="./redis-shake", harness=["run"], test="^TestVerif_C19R$", shards=16, gomaxprocs=2, budget=dict(quick=75, thorough=300)),
                # connection helpers x environment answers (incl. the cluster client against a loopback listener)
-               dict(pkg="./redis-shake/common", harness=["common"], test="^TestVerif_C19U$", shards=8, gomaxprocs=2, budget=dict(quick=75, thorough=300))],
+               dict(pkg="./redis-shake/common", harness=["common"], test="^TestVerif_C19U$", shards=8, gomaxprocs=2, budget=dict(quick=75, thorough=300),
+                    race=True, race_test="^TestVerif_C19Race$", race_shards=1)],
     ),
 }
